@@ -188,7 +188,7 @@ fn permute_map_n<const N: usize, const NNZ: usize>() {
         assert!(Pm.nzval[t] == A.nzval[k], "entry_value_carried");
         k += 1;
     }
-    kani::cover!(iperm[0] == N - 1 && A.rowval[NNZ - 1] == 0, "reversing permutation, off-diagonal entry");
+    kani::cover!(iperm[0] == N - 1 && A.rowval[NNZ - 1] < N - 1, "reversing permutation, off-diagonal last entry");
 }
 
 #[kani::proof]
